@@ -187,6 +187,27 @@ def run(cx: Cx):
         cx.inconclusive('R-GUARD', '_run_model_for_batch returns', f"branches found: {sorted(seen)}", where=cx.where(runf), function=runf.qualname)
 
     check_no_swallow(cx, [BR, RUN, BATCH + '_build_model_from_kwargs'])
+    # the records a run hands back are its own: every collector object starts with a list allocated for it alone (a list found
+    # on the object - hasattr also finds one declared in a subclass body - is shared by all collectors of that class in the process)
+    from .common import COLL
+    cinit = cx.fn(COLL + 'Collector.__init__')
+    RLOC = (COLL + 'Collector', 'records')
+    n_ci = 0
+    for p in cx.walker.paths(cinit, WalkOptions(unroll=1, callee_raises=False)):
+        if p.end == 'raise':
+            continue
+        n_ci += 1
+        st = [e for e in p.events if e.kind == 'store' and e.data.get('loc') == RLOC]
+        v = st[-1].data.get('value') if st else None
+        if not (st and st[-1].data.get('store') == 'rebind' and isinstance(v, Fresh) and v.kind in ('list', 'call:list') and not v.items):
+            cx.violation('R-SHARED', cinit.qualname, 'fresh-records-per-collector',
+                         f"Collector.__init__ does not give the new collector a list of its own on a path [{p.cond!r}] (found {v!r}): "
+                         f"collectors that share a list hand every run the records of the other runs as well",
+                         where=cx.where(cinit, st[-1].line if st else None), path=p.lines())
+            break
+    else:
+        cx.ok('R-SHARED', f"every collector starts with its own empty records list ({n_ci} constructor path(s))", where=cx.where(cinit),
+              function=cinit.qualname)
     # the work list is ParameterList.build(): every combination once, as independent dictionaries (C14's build rules)
     from .c14 import check_build, check_declaration
     check_build(cx)
